@@ -20,7 +20,7 @@ QUICK_WINDOWS = ["quick_struct", "quick_flat"]
 THOROUGH_WINDOWS = ["quick_struct", "quick_flat", "thorough_struct1", "thorough_struct2", "thorough_struct3", "thorough_flat"]
 
 ASSUMPTIONS = [
-    "abstract values 0/1/2 are concretised per kind (int 0/1/2, string ''/'x'/'y', bool false/true, float 0/1.5/2.5, uint 0/1/2); 0 = empty",
+    "abstract values 0/1/2 are concretised per kind (int 0/1/2, string ''/'x'/'y', bool false/true, float 0 / 1.5 / 1.5000000000002 (botheq is exact equality), uint 0/1/2); 0 = empty",
     "botheq groups are only generated with members of one kind (the property's domain); either groups mix kinds",
     "every rule-bearing map key / URL parameter is present in the input (what an absent member means is not stated)",
     "interface-valued maps are generated only when no either group is all-empty (emptiness of interface values is C03's business, defect D3)",
